@@ -78,6 +78,8 @@ type Prog struct {
 	Front   string  `json:"front,omitempty"`   // sub: how the nested graph is built ("" = Graph API, wf, chain)
 	OutMap  *FMap   `json:"outmap,omitempty"`  // node | sub, Workflow only: mapping on the outgoing data edges
 	PassMap bool    `json:"passmap,omitempty"` // pass (AddPassthroughNode, key ID): the type passing through is a map
+
+	passKeys []int // generator's note: the keys a map picked by a keyed passthrough node (W.In) is known to carry
 }
 
 func (f *FMap) mappings() []*compose.FieldMapping {
@@ -113,6 +115,9 @@ func (p *Prog) inMap() bool {
 	case "direct":
 		return true
 	case "pass":
+		if p.W != nil && p.W.In != nil {
+			return true
+		}
 		return p.PassMap
 	case "node":
 		if p.W != nil && p.W.In != nil {
@@ -149,6 +154,9 @@ func (p *Prog) rawOutMap() bool {
 	case "direct":
 		return true
 	case "pass":
+		if p.W != nil && p.W.Out != nil {
+			return true
+		}
 		return p.PassMap
 	case "node":
 		if p.W != nil && p.W.Out != nil {
@@ -327,11 +335,18 @@ func passHandlerOptT[T any](h *NSpec, pre bool, rec *recorder) compose.GraphAddN
 	return compose.WithStatePostHandler(f)
 }
 
-// passOpts: the state handlers of a passthrough node (op pass; W carries Pre / Post only)
+// passOpts: the state handlers (W.Pre / W.Post) or the key (W.In: the passthrough node picks its value out of a
+// map, its type is the one of its successor; W.Out: it puts what it receives under a key) of a passthrough node
 func (p *Prog) passOpts(rec *recorder) []compose.GraphAddNodeOpt {
 	var opts []compose.GraphAddNodeOpt
 	if p.W == nil {
 		return nil
+	}
+	if p.W.In != nil {
+		opts = append(opts, compose.WithInputKey(keyStr(*p.W.In)))
+	}
+	if p.W.Out != nil {
+		opts = append(opts, compose.WithOutputKey(keyStr(*p.W.Out)))
 	}
 	if p.W.Pre != nil {
 		opts = append(opts, passHandlerOpt(p.W.Pre, p.PassMap, true, rec))
